@@ -826,6 +826,10 @@ PUBLISHED:
   int use(const Base &b, Base::Inner *i = 0);
 };
 class Holder { PUBLISHED: Holder(); Base *held; Derived d; };
+// a class without published members in the middle of a published hierarchy: recorded as not fully defined, but
+// it carries its base-class list (a cross reference into the other library that every merge has to carry over)
+class Quiet : public Base { public: int hidden() const; };
+class Loud : public Quiet { PUBLISHED: Loud(); int loud() const; };
 """, includes=["sa"])),
         ("libc", "sc", _hdr("sc", """
 class MoreDerived : public Derived {
